@@ -627,7 +627,9 @@ func (w *lifeW) dupConnect(cy *lifeCycle) {
 	if w.regEnter != reg || (w.discCount != disc && w.discCount > cy.no-1) {
 		e.Violation("connect-while-connected", "a refused Connect fired events: REGISTER %d->%d DISCONNECTED %d->%d with %d earlier connections", reg, w.regEnter, disc, w.discCount, cy.no-1)
 	}
-	if !w.c.Connected() {
+	// (the call is a scheduling point: a stray Close of an earlier cycle may land
+	// on this connection meanwhile, so the guard is evaluated after it)
+	if up := w.c.Connected(); !up && !w.causeBegun(cy) {
 		e.Violation("connect-while-connected", "Connected() is false after a refused Connect although connection %d is up", cy.no)
 	}
 	e.Check()
